@@ -332,6 +332,85 @@ pub fn main(tier: Tier, seed: u64) -> i32 {
             rep.violation(format!("undetected:tap:{}", taps[*ti].1[0]), format!("{}: {} -> {}", cfg.name, taps[*ti].0, outs.join(" ")), json!({"kind":"tap","case":cfg.case,"corrupted":cfg.corrupted,"seed":cfg.seed,"tap":taps[*ti].1}));
         }
     }
+    // ---- rushing peer that echoes the victim's own round messages (n = 2) ---------------------------
+    // Several checks open values from all parties after a commitment round and test a relation that
+    // is symmetric in the parties (the coin toss, the aShare check, the LaAND check H_0 xor H_1 = 0).
+    // A rushing peer can answer the victim's commitment with a copy of it and the victim's opening
+    // with a copy of that: the victim is handed its own messages of that round.  Alone, and combined
+    // with every kind of wrong value that the campaign above shows to be detected, the victim must
+    // still return Err.  (The cheater's own honest code is handed its own messages as well, so that
+    // it does not abort where a real cheater would simply go on.)
+    let reflect_sets: Vec<(&str, Vec<&str>)> = vec![
+        ("coin_toss", vec!["RNG comm", "RNG ver"]),
+        ("ashare_check", vec!["fashare comm", "fashare ver", "fashare di_bi"]),
+        ("laand_check", vec!["flaand comm", "flaand hash"]),
+        ("bucket_and_beaver_openings", vec!["dvalue", "faand"]),
+    ];
+    // base deviations: none, or one detected single-message fault (quick: one per label and
+    // configuration; thorough: every one)
+    let mut rcases: Vec<(usize, Option<usize>, usize)> = vec![];
+    for (ci, cfg) in cfgs.iter().enumerate() {
+        if cfg.case.n() != 2 {
+            continue;
+        }
+        for si in 0..reflect_sets.len() {
+            rcases.push((ci, None, si));
+        }
+    }
+    {
+        let mut seen = std::collections::HashSet::new();
+        for (k, c) in cases.iter().enumerate() {
+            let cfg = &cfgs[c.cfg];
+            if cfg.case.n() == 2 && c.rule == crate::campaign::Rule::Always && !c.muts[0].malformed && c.msgs.len() == 1 && (tier.is_thorough() || seen.insert((c.cfg, c.label.clone(), c.muts[0].path.as_ref().and_then(|p| p.get(1).copied())))) {
+                for si in 0..reflect_sets.len() {
+                    rcases.push((c.cfg, Some(k), si));
+                }
+            }
+        }
+    }
+    let rres = par_map(&rcases, |w, _, (ci, k, si)| {
+        let cfg = &cfgs[*ci];
+        let victim = 1 - cfg.corrupted;
+        let mut faults = k.map(|k| crate::campaign::faults_of(cfg, &cases[k])).unwrap_or_default();
+        let nbase = faults.len();
+        for label in &reflect_sets[*si].1 {
+            for ord in 0..4 {
+                faults.push(crate::exec::Fault { party: victim, dir: crate::exec::Dir::Recv, peer: cfg.corrupted, label: label.to_string(), ord, mutation: crate::exec::Mutation::Reflect });
+                faults.push(crate::exec::Fault { party: cfg.corrupted, dir: crate::exec::Dir::Recv, peer: victim, label: label.to_string(), ord, mutation: crate::exec::Mutation::Reflect });
+            }
+        }
+        let (fr, r) = run_faults(cfg, faults, vec![], false, w);
+        let base_hit = r.faults_hit[..nbase].iter().all(|h| *h);
+        let reflected = r.faults_hit[nbase..].iter().filter(|h| **h).count();
+        (fr, base_hit, reflected, victim)
+    });
+    let mut refl_detected = 0u64;
+    let mut refl_not_applicable = 0u64;
+    let mut refl_kinds: std::collections::BTreeMap<String, u64> = Default::default();
+    for ((ci, k, si), (r, base_hit, reflected, victim)) in rcases.iter().zip(rres.iter()) {
+        let cfg = &cfgs[*ci];
+        if !*base_hit || *reflected == 0 {
+            // the run ended before the round in question
+            refl_not_applicable += 1;
+            continue;
+        }
+        let base = k.map(|k| cases[k].desc.clone()).unwrap_or_else(|| format!("{}: no other deviation", cfg.name));
+        let outs: Vec<String> = r.outcomes.iter().enumerate().map(|(p, o)| format!("p{p}:{}({})", o.0, o.1.chars().take(50).collect::<String>())).collect();
+        if r.outcomes[*victim].0 == "Err" {
+            refl_detected += 1;
+            *refl_kinds.entry(format!("{}: {}", reflect_sets[*si].0, r.outcomes[*victim].1.chars().take(48).collect::<String>())).or_insert(0u64) += 1;
+        } else {
+            let expected = crate::util::bits(&cfg.case.circ.eval(&cfg.case.inputs));
+            let label = k.map(|k| cases[k].label.clone()).unwrap_or_else(|| "none".into());
+            rep.violation(
+                format!("undetected:{}_reflected:{label}", reflect_sets[*si].0),
+                format!("{base}; the peer echoes the victim's own {:?} messages back to it -> {} (clear-text value of the circuit: {expected})", reflect_sets[*si].1, outs.join(" ")),
+                json!({"kind":"fault","case":cfg.case,"corrupted":cfg.corrupted,"seed":cfg.seed,"note":format!("plus Recv-side Reflect of {:?} at both parties", reflect_sets[*si].1),"faults": k.map(|k| crate::campaign::replay_json(cfg, &cases[k])["faults"].clone())}),
+            );
+        }
+    }
+    rep.set("reflection", json!({"runs": rcases.len(), "detected": refl_detected, "round_not_reached": refl_not_applicable, "victim_errors": refl_kinds}));
+
     // ---- a choice bit used towards one peer only (inconsistent aBit input) --------------------------
     // The cheater runs the OT extension with peer k on x' = x with one bit flipped and everything else
     // on x.  The KOS column check passes (x' is used consistently inside that session); the aBit test
@@ -467,12 +546,12 @@ pub fn main(tier: Tier, seed: u64) -> i32 {
         }
     }
     rep.set("challenge_predictions_compared", json!(pred_checked));
-    rep.evaluations = j.evaluations + tap_cases.len() as u64 + xcases.len() as u64 + sched_total + 4;
+    rep.evaluations = j.evaluations + tap_cases.len() as u64 + xcases.len() as u64 + rcases.len() as u64 + sched_total + 4;
     rep.distinct_nontrivial = j.nontrivial.len() as u64 + tap_detected + x_detected;
     if rep.exhaustive.is_none() {
         rep.exhaustive = Some(true);
     }
-    rep.rule = "(a) every preprocessing message of the corrupted party (coin-toss commit/opening, Chou-Orlandi, ALSZ/KOS, aBit test, aShare commit/decommit/opened sums, HaAND, LaAND e/u/commit/hash, d-values, Beaver openings, broadcast echo): every field x position (quick: first/middle/last; thorough: every index) x {xor low/top bit, flip bool; thorough adds set-zero/ones}; paired variants for conditionally read branches; n=3 to one recipient and consistently to all; tap-based persistent liars; a choice bit used towards one peer only (flipped in every column of the OT matrix as a message fault, and via a tap on the bits handed to that peer's OT session, at 9 index classes x 2 batches; for n=3 also with the test bits announced to that peer adjusted, so that only the broadcast echo can tell) - the peer must abort in the aBit test, before sending anything of the aShare phase. Oracle: honest recipients that consume the value return Err (consumption rules of DESIGN.md 2.2). (b) reveal-after-all-commits monitor on every schedule explored with the C12 explorer and on a 3-batch run. (c) predictor: challenge recomputed from coin-toss openings on the wire before the data under check is sent vs. probes of the challenge actually used (alarm on exact match only) and reuse between checks. distinct = (configuration, label/field, recipients, position); trivial = unread branch".into();
+    rep.rule = "(a) every preprocessing message of the corrupted party (coin-toss commit/opening, Chou-Orlandi, ALSZ/KOS, aBit test, aShare commit/decommit/opened sums, HaAND, LaAND e/u/commit/hash, d-values, Beaver openings, broadcast echo): every field x position (quick: first/middle/last; thorough: every index) x {xor low/top bit, flip bool; thorough adds set-zero/ones}; paired variants for conditionally read branches; n=3 to one recipient and consistently to all; tap-based persistent liars; n=2: a rushing peer that echoes the victim's own messages of a commit / open round back to it (coin toss, aShare check, LaAND check, d-value and Beaver openings), alone and combined with one detected fault per label; a choice bit used towards one peer only (flipped in every column of the OT matrix as a message fault, and via a tap on the bits handed to that peer's OT session, at 9 index classes x 2 batches; for n=3 also with the test bits announced to that peer adjusted, so that only the broadcast echo can tell) - the peer must abort in the aBit test, before sending anything of the aShare phase. Oracle: honest recipients that consume the value return Err (consumption rules of DESIGN.md 2.2). (b) reveal-after-all-commits monitor on every schedule explored with the C12 explorer and on a 3-batch run. (c) predictor: challenge recomputed from coin-toss openings on the wire before the data under check is sent vs. probes of the challenge actually used (alarm on exact match only) and reuse between checks. distinct = (configuration, label/field, recipients, position); trivial = unread branch".into();
     rep.assumptions = vec![
         "cryptographic negligible-probability events are treated as impossible".into(),
         "predictor alarms only on an exact 128-bit / whole-permutation match".into(),
